@@ -4,6 +4,8 @@ import Sentinel.Lemmas.EntrySchedule
 import Sentinel.Lemmas.EntryReset
 import Sentinel.Lemmas.EntryResetLedger
 import Sentinel.Lemmas.EntryClock
+import Sentinel.Lemmas.EntryFresh
+import Sentinel.Lemmas.EntryErrors
 /-!
 # C01 — Entry/Exit accounting is conserved and correctly attributed
 (property theorems only; the simulation lemmas live in `Sentinel/Lemmas/Entry.lean`)
@@ -523,6 +525,82 @@ theorem gauge_any_clock (fix : Bool) (t0 : Nat) (ops : List TOp) (k : Key) :
   have h1 := (clock_independent fix t0 1 ops (freeze ops) (by simp [freeze, Function.comp_def])).1 k
   rw [h1]
   exact conc_refines_ledger fix 1 (freeze ops) (by decide) (mono_freeze ops) k
+
+/-! ## (2f) traffic on fresh outbound resources (the harness op `many n`)
+
+`P` marks resource names, `I` entry ids.  *Inside* ops: outbound entries on a `P` resource with an `I` id through a chain
+without recording slots, and `trace`/`exit` of `I` ids.  *Outside* ops touch neither.  From ANY state in which no context
+uses a `P` name or an `I` id, ANY interleaving of inside and outside ops leaves — compared with running the outside ops
+alone — the inbound node, every node outside `P`, the recording log, and the context and outcome of every entry outside `I`
+exactly as they are.  `many n` is n inside entry/exit pairs on never-seen names before everything else (`many_irrelevant`). -/
+theorem fresh_traffic_irrelevant (P : String → Bool) (I : Nat → Bool) (fix : Bool) (s : St)
+    (hfresh : ∀ id c, findE s.ents id = some c → I id = false ∧ P c.e.res = false) (ops : List TOp)
+    (hops : ∀ x ∈ ops, inside P I x = true ∨ outside P I x = true) :
+    let a := runFrom fix s (ops.filter (outside P I))
+    let b := runFrom fix s ops
+    nodeOf a none = nodeOf b none ∧ (∀ r, P r = false → nodeOf a (some r) = nodeOf b (some r)) ∧ a.log = b.log ∧
+    (∀ id, I id = false → obsCtx a id = obsCtx b id ∧ obsEntered a id = obsEntered b id) := by
+  have hs : Sep P I s :=
+    ⟨fun id c hI hf => by rw [(hfresh id c hf).1] at hI; exact absurd hI (by simp), fun id c _ hf => (hfresh id c hf).2⟩
+  obtain ⟨o, _, _⟩ := fresh_traffic P I fix s hs ops hops
+  refine ⟨by simp only [nodeOf, o.inb], fun r hr => by simp only [nodeOf, o.nodes r hr], o.log, ?_⟩
+  intro id hid
+  unfold obsCtx obsEntered
+  rw [o.ents id hid]
+  exact ⟨rfl, rfl⟩
+
+theorem inside_not_outside (P : String → Bool) (I : Nat → Bool) (x : TOp) (h : inside P I x = true) : outside P I x = false := by
+  obtain ⟨t, op⟩ := x
+  cases op <;> simp_all [inside, outside]
+
+/-- `many n`, then anything else: the later ops see the state as if the `many` had not happened -/
+theorem many_irrelevant (P : String → Bool) (I : Nat → Bool) (fix : Bool) (s : St)
+    (hfresh : ∀ id c, findE s.ents id = some c → I id = false ∧ P c.e.res = false) (pairs later : List TOp)
+    (hp : ∀ x ∈ pairs, inside P I x = true) (hl : ∀ x ∈ later, outside P I x = true) :
+    let a := runFrom fix s later
+    let b := runFrom fix s (later ++ pairs)
+    nodeOf a none = nodeOf b none ∧ (∀ r, P r = false → nodeOf a (some r) = nodeOf b (some r)) ∧ a.log = b.log ∧
+    (∀ id, I id = false → obsCtx a id = obsCtx b id ∧ obsEntered a id = obsEntered b id) := by
+  have hfil : (later ++ pairs).filter (outside P I) = later := by
+    rw [List.filter_append, List.filter_eq_self.mpr hl,
+        List.filter_eq_nil_iff.mpr (fun x hx => by simp [inside_not_outside P I x (hp x hx)]), List.append_nil]
+  have := fresh_traffic_irrelevant P I fix s hfresh (later ++ pairs)
+    (fun x hx => by rcases List.mem_append.mp hx with h | h; exact Or.inr (hl x h); exact Or.inl (hp x h))
+  rw [hfil] at this
+  exact this
+
+/-! ## (2g) errors are opaque tags
+
+An error is an arbitrary `String` for the model and the ledger: a plain error, a wrapped one, a `*base.BlockError` are
+different tags and nothing else.  Reporting paths: `trace` (`api.TraceError`; `entry.SetError` called directly with a non-nil
+error is the same op for the model) and `exit … err` (`Exit(WithError(err))`). -/
+
+/-- a non-nil report on a live entry — any tag — is what the completion will carry; a nil report changes nothing -/
+theorem report_sets_error (t id : Nat) (x : String) (h : List TOp) (i : Info) (hi : info h id = some i) (hl : i.done = false) :
+    info ((t, .trace id (some x)) :: h) id = some { i with err := some x } ∧
+    (∀ id', info ((t, .trace id none) :: h) id' = info h id') :=
+  ⟨trace_sets_error t id x h i hi hl, trace_nil_noop t id h⟩
+
+/-- **every reported error counts exactly once, nil counts nothing**: at the first `exit` of a live entry the error counter
+of each node the entry accounts on (its resource; the inbound node for inbound traffic) grows by the entry's batch iff an
+error was reported by that exit or before it — whatever the tag, whatever the path — and by nothing otherwise; entries and
+reports themselves add no error tokens; there is no second completion (`complete_exactly_once`) -/
+theorem error_counted_once (fix : Bool) (h : List TOp) (t id : Nat) (err : Option String) (i : Info) (k : Key)
+    (hi : info h id = some i) (hl : i.done = false) :
+    errorTokens (contrib fix h (t, .exit id err) k) = (if touches i.e k && (err.isSome || i.err.isSome) then i.e.batch else 0) ∧
+    (∀ e, errorTokens (contrib fix h (t, .entry e) k) = 0) ∧
+    (∀ j e', errorTokens (contrib fix h (t, .trace j e') k) = 0) :=
+  ⟨completion_error_count fix h t id err i k hi hl, (no_error_before_completion fix h t k).1, (no_error_before_completion fix h t k).2⟩
+
+/-- **a report after the exit changes nothing**, for every path and every tag (the repaired `late-exit-error`): the account
+of every id, the events of every node, every gauge and the recording log are untouched (`exit_idempotent` is the same fact
+on the model's whole state) -/
+theorem late_report_changes_nothing (fix : Bool) (t id : Nat) (err : Option String) (h : List TOp) (i : Info)
+    (hi : info h id = some i) (hd : i.done = true) :
+    (∀ id', info ((t, .trace id err) :: h) id' = info h id' ∧ info ((t, .exit id err) :: h) id' = info h id') ∧
+    (∀ k, contrib fix h (t, .trace id err) k = [] ∧ contrib fix h (t, .exit id err) k = [] ∧
+          gaugeDelta fix h (t, .exit id err) k = 0 ∧ recContrib fix h (t, .exit id err) = []) :=
+  ⟨fun id' => late_report_noop t id err h i hi hd id', fun k => late_report_no_events fix t id err h i hi hd k⟩
 
 /-! ## (3) the statement for the code as it is, and where it fails -/
 
